@@ -155,6 +155,12 @@ def cases(tier: str) -> list[dict[str, Any]]:
         for wait, dur in ((1, 0.7), (1, 0.0), (0.25, 0.25)):
             cs.append({"stop": ("delay_td", d), "wait": wait, "dur": dur, "clause": "delay_budget"})
             cs.append({"stop": ("before_td", d), "wait": wait, "dur": dur, "clause": "composed_budget"})
+    # an attempt (the first one / a retry) waits for an answer from outside before it fails: waiting is not an attempt, the
+    # retry number, previous exception and first-attempt time carry over
+    for won in (0, 1, 2):
+        cs.append({"stop": ("attempt", 4), "wait": 0, "dur": 0.0, "wait_on_attempt": won, "clause": "attempt_budget"})
+        cs.append({"stop": ("attempt", 3), "wait": 1, "dur": 0.7, "wait_on_attempt": won, "clause": "attempt_budget"})
+        cs.append({"stop": ("delay", 2.5), "wait": 1, "dur": 0.7, "wait_on_attempt": won, "clause": "delay_budget"})
     # ... and budgets of a day and more (timedelta keeps days apart from seconds), alone and composed
     for d in (86400.0, 86402.5, 129600.0):
         for wait, dur in ((40000, 0.7), (30000, 0.0)):
@@ -206,7 +212,8 @@ def check_case(case: dict[str, Any]) -> tuple[dict[str, Any], list[tuple[str, di
     try:
         obs = run_failing(build_policy(case), exc_for, dur=case["dur"], clock=tuple(case["clock"]),
                           wall_adapter=case["wall_adapter"], with_handler=case["handler"],
-                          queue_wait=case.get("queue_wait", 0.0), busy_block=case.get("busy_block", 0.0))
+                          queue_wait=case.get("queue_wait", 0.0), busy_block=case.get("busy_block", 0.0),
+                          wait_on_attempt=case.get("wait_on_attempt"))
     except Livelock:
         # zero delay, zero duration and a policy that never gives up: the step is retried for ever without the loop
         # ever going quiet - every case of this grid has a finite budget
@@ -220,6 +227,8 @@ def check_case(case: dict[str, Any]) -> tuple[dict[str, Any], list[tuple[str, di
         w["queued_first"] = True
     if case.get("busy_block"):
         w["retry_queued_behind_busy_worker"] = True
+    if case.get("wait_on_attempt") is not None:
+        w["an_attempt_waits_for_an_event"] = "first" if case["wait_on_attempt"] == 0 else "a_retry"
     desc = f"case={ {k: case[k] for k in case if k not in ('clause',)} }"
     n_exec = len(obs.attempts)
     if obs.stuck or obs.capped:
